@@ -260,6 +260,66 @@ func init() {
 		x.funcsUsed["lib:net/http.NewRequestWithContext (on success: non-nil request with non-nil URL and Header)"] = true
 		return Val{Tup: []Val{req, err}}, true
 	}
+	// req.Clone(ctx): a new request object with its own URL and header map;
+	// the header map holds the same entries as the original's
+	libTable["(*net/http.Request).Clone"] = func(x *Exec, fr *Frame, st *State, cc *ssa.CallCommon, a []Val) (Val, bool) {
+		reqT := cc.Signature().Results().At(0).Type()
+		si := x.te.Struct(reqT.Underlying().(*types.Pointer).Elem())
+		ref := x.freshRef(st)
+		st.ghost["fresh:"+ref.S] = True
+		for i, fn := range si.FNames {
+			key, sort := x.fieldComp(si, i)
+			cur := x.heapGet(st, key, sort)
+			ov := Select(cur, a[0].T)
+			switch fn {
+			case "Header":
+				nh := x.freshRef(st)
+				if mt, ok := si.FTypes[i].Underlying().(*types.Map); ok && x.te.StrSort == "String" {
+					x.te.SortOf(mt.Elem())
+					hk, hs, vk, vs := x.mapComps(mt)
+					has := x.heapGet(st, hk, hs)
+					val := x.heapGet(st, vk, vs)
+					st.heap[hk] = Store(has, nh, Select(has, ov))
+					st.heap[vk] = Store(val, nh, Select(val, ov))
+				}
+				st.heap[key] = Store(cur, ref, Ite(Eq(ov, IntLit(0)), IntLit(0), nh))
+			case "URL":
+				nu := x.freshRef(st)
+				ui := x.te.Struct(si.FTypes[i].Underlying().(*types.Pointer).Elem())
+				for j := range ui.Acc {
+					uk, us := x.fieldComp(ui, j)
+					uc := x.heapGet(st, uk, us)
+					st.heap[uk] = Store(uc, nu, Select(uc, ov))
+				}
+				st.heap[key] = Store(cur, ref, Ite(Eq(ov, IntLit(0)), IntLit(0), nu))
+			default:
+				st.heap[key] = Store(cur, ref, ov)
+			}
+		}
+		x.funcsUsed["lib:(*net/http.Request).Clone (a fresh request with its own URL and header map holding the same values)"] = true
+		return Val{T: ref, Typ: reqT}, true
+	}
+	// req.SetBasicAuth(u, p): Authorization: Basic <credentials>
+	libTable["(*net/http.Request).SetBasicAuth"] = func(x *Exec, fr *Frame, st *State, cc *ssa.CallCommon, a []Val) (Val, bool) {
+		reqT := cc.Args[0].Type()
+		h, hT, found := x.structFieldTerm(st, reqT, a[0].T, "Header")
+		mt, isMap := hT.Underlying().(*types.Map)
+		if !found || !isMap || x.te.StrSort != "String" {
+			return Val{}, false
+		}
+		x.te.SortOf(mt.Elem())
+		hk, hs, vk, vs := x.mapComps(mt)
+		has := x.heapGet(st, hk, hs)
+		val := x.heapGet(st, vk, vs)
+		x.d.DeclareFun("basicAuth", "(declare-fun basicAuth (String String) String)")
+		v := mk("String", "str.++", StrLit("Basic "), mk("String", "basicAuth", a[1].T, a[2].T))
+		one := x.te.SliceMake(mt.Elem(), Store(constArray("Int", StrLit("")), IntLit(0), v), IntLit(1), IntLit(1), False)
+		k := StrLit("Authorization")
+		st.heap[hk] = Store(has, h, Store(Select(has, h), k, True))
+		st.heap[vk] = Store(val, h, Store(Select(val, h), k, one))
+		x.funcsUsed["lib:(*net/http.Request).SetBasicAuth (sets Authorization to \"Basic \" + an injective encoding of user and password)"] = true
+		return Val{}, true
+	}
 	libTable["net/url.Parse"] = func(x *Exec, fr *Frame, st *State, cc *ssa.CallCommon, a []Val) (Val, bool) {
 		uT := cc.Signature().Results().At(0).Type()
 		u := x.freshVal(st, "url", uT)
